@@ -22,6 +22,7 @@ structure Dep where
   name : Str
   ver : Option Str        -- explicit version, or none
   noRec : Bool            -- `-j`
+  external : Bool := false   -- `--external`: tracked but not managed by eups — skipped (`listExternalDependencies=False`)
 deriving Repr, DecidableEq
 
 structure Decl where
@@ -60,7 +61,7 @@ def Db.table (db : Db) (p : Prod) : List Dep :=
   match p.real, p.ver with
   | true, some v =>
     match db.decls.find? (fun d => d.name == p.name && d.ver == v) with
-    | some d => d.deps
+    | some d => d.deps.filter fun x => !x.external     -- both branches `continue` on these lines (`-n` is accepted for the product `eups` only)
     | none => []
   | _, _ => []
 
